@@ -69,6 +69,7 @@ MODES = {'j20': ['-j20'], 'rep2': ['--repeat', '2'], 'j2rep2': ['-j2', '--repeat
          'j2t': ['-j2', '-t', 'q1|q2'], 'q': ['-q'], 'j2q': ['-j2', '--quiet'],
          # the parent's own stdout cannot encode everything (an ASCII / latin-1
          # console): see PARENT_ENC
+         'D': ['-D'],
          'j2v_ascii': ['-j2', '-v'], 'j2vv_ascii': ['-j2', '-vv'], 'v_latin1': ['-v'], 'j1v_latin1': ['-j1', '-v']}
 PARENT_ENC = {'j2v_ascii': ('ascii', 'strict'), 'j2vv_ascii': ('ascii', 'strict'),
               'v_latin1': ('latin-1', 'strict'), 'j1v_latin1': ('latin-1', 'strict')}
@@ -129,6 +130,15 @@ def cases(tier, seed):
     for shape, sc, lf, bm in _items(tier):
         for m in worlds.rot(modes, seed):
             yield [shape, sc, lf, bm, m, None]
+    # -D: after the (scripted) post-mortem session of a bad outcome the run
+    # ends - and its verdict is 'failed'
+    for shape in ('U2', 'U1A2', 'A1B2c', 'A2B1i'):
+        nslots = len(ow.SHAPES[shape][1])
+        for sc in ow.placements(nslots, ['fail', 'error', 'setup_err', 'teardown_err', 'sub:1,0,1', 'uxs'], 1):
+            yield [shape, sc, {}, [], 'D', None]
+        for lf in ow.layer_fault_choices(shape, 1):
+            if lf:
+                yield [shape, ['pass'] * nslots, lf, [], 'D', None]
     # --repeat: items that are bad in one iteration only
     for shape in ow.SHAPES:
         nslots = len(ow.SHAPES[shape][1])
@@ -428,7 +438,22 @@ def run_case(case):
     argv = list(MODES[m])
     state = {'n': 0, 'hit': False}
     hook = _mk_hook(cf, state) if cf else None
-    res = runrt.run_world(spec, argv, child_hook=hook, parent_encoding=PARENT_ENC.get(m))
+    if m == 'D':
+        # own the debugger: a session that returns at once
+        import zope.testrunner.debug as _dbg
+
+        class _Pdb:
+            @staticmethod
+            def post_mortem(tb=None):
+                return None
+        _saved_pdb = _dbg.pdb
+        _dbg.pdb = _Pdb
+        try:
+            res = runrt.run_world(spec, argv)
+        finally:
+            _dbg.pdb = _saved_pdb
+    else:
+        res = runrt.run_world(spec, argv, child_hook=hook, parent_encoding=PARENT_ENC.get(m))
     truth = ow.Truth(spec, res)
     viol = []
     kinds = sorted({(s['s'] if isinstance(s, dict) else s) for s in sc if s != 'pass'})
@@ -468,6 +493,10 @@ def run_case(case):
                 if orig.startswith(chs[idx]['stderr']) and orig[len(chs[idx]['stderr']):] == b'\n' and orig.count(b'\n') == 1:
                     child_fault_effective = False
     want_bad = truth.bad or bool(bm) or child_fault_effective
+    if m == 'D':
+        # (under -D tests run through debug(), which the world's trace does not
+        # bracket: the single bad item of these worlds is always reached)
+        want_bad = bool(kinds or lf)
     if res.escaped:
         viol.append({'clause': 'run_aborted', 'sig': dict(sig, exc=res.escaped),
                      'detail': res.escaped_tb})
